@@ -11,6 +11,7 @@ package sarama
 import (
 	"encoding/json"
 	"fmt"
+	"os"
 	"strings"
 	"sync"
 	"sync/atomic"
@@ -176,8 +177,17 @@ func (p *vPartitioner) Partition(m *ProducerMessage, n int32) (int32, error) {
 }
 func (p *vPartitioner) RequiresConsistency() bool { return p.inner.RequiresConsistency() }
 
+// internal (hook-level) events go to a second file, validated softly against the
+// implementation-shaped model of the partition worker (spec/PpConfTrace.tla)
+var vInternalRec *vRec
+
 func runProducerScenario(t testing.TB, rec *vRec, sc *prodScenario) {
-	rec = rec.Sub() // scoped to this scenario: stragglers of an abandoned run cannot pollute later traces
+	rec = rec.Sub()
+	var irec *vRec
+	if vInternalRec != nil {
+		irec = vInternalRec.Sub()
+		irec.Reset(kv{"name": sc.Name})
+	} // scoped to this scenario: stragglers of an abandoned run cannot pollute later traces
 	cfgv := sc.Cfg
 	if cfgv.NBrokers == 0 {
 		cfgv.NBrokers = 1
@@ -225,9 +235,25 @@ func runProducerScenario(t testing.TB, rec *vRec, sc *prodScenario) {
 		gates[g.Name] = &gateState{g: g, arrived: make(chan struct{}), release: make(chan struct{})}
 	}
 	var hookCalls int64
-	if len(gates) > 0 {
+	if len(gates) > 0 || irec != nil {
 		verifHook = func(point string, args ...interface{}) {
 			atomic.AddInt64(&hookCalls, 1)
+			if irec != nil {
+				switch point {
+				case "pp.recv":
+					if m, ok := args[0].(*ProducerMessage); ok {
+						h, _ := args[1].(int)
+						irec.Ev("pp_recv", kv{"part": int(m.Partition), "id": msgID(m), "retries": m.retries, "fin": m.flags&fin != 0, "hwm": h})
+					}
+				case "pp.flush":
+					pt, _ := args[1].(int32)
+					lv, _ := args[2].(int)
+					irec.Ev("pp_flush", kv{"part": int(pt), "level": lv})
+				}
+			}
+			if len(gates) == 0 {
+				return
+			}
 			var m *ProducerMessage
 			hwm := -1
 			if len(args) > 0 {
@@ -575,6 +601,10 @@ func TestVerifProducer(t *testing.T) {
 	defer rec.Close()
 	vInstallPanicHandler(rec)
 	defer func() { PanicHandler = nil }()
+	if os.Getenv("VERIF_INTERNAL") != "" {
+		vInternalRec = vOpenRec(t, "internal.ndjson")
+		defer func() { vInternalRec.Close(); vInternalRec = nil }()
+	}
 	n := 0
 	var samples []string
 	for _, line := range lines {
